@@ -163,6 +163,9 @@ fn single_cases(t: &str, is_bool: bool, is_num: bool) -> Vec<Case> {
     c("array literal: an unsuffixed number and a bool", "pub fn main(x: bool) -> [bool; 2] { [x, true] }", "pub fn main(x: bool) -> [bool; 2] { [1, true] }");
     c("match arm in a let: an unsuffixed number that is not a value of the type of the other arm", "pub fn main(x: bool, z: u8) -> u8 { let y = match x { true => 30, false => z }; y }", "pub fn main(x: bool, z: u8) -> u8 { let y = match x { true => 300, false => z }; y }");
     c("match arm in a let: a negative number for an unsigned arm type", "pub fn main(x: bool, z: i8) -> i8 { let y = match x { true => -3, false => z }; y }", "pub fn main(x: bool, z: u8) -> u8 { let y = match x { true => -3, false => z }; y }");
+    c("argument: a let-bound array of negative unsuffixed numbers for an unsigned array parameter", "fn sum(a: [i8; 3]) -> i8 { a[0] + a[1] + a[2] }\npub fn main(x: i8) -> i8 { let a = [-1, -2, -3]; sum(a) + x }", "fn sum(a: [u8; 3]) -> u8 { a[0] + a[1] + a[2] }\npub fn main(x: u8) -> u8 { let a = [-1, -2, -3]; sum(a) + x }");
+    c("argument: a let-bound tuple with a negative unsuffixed number for an unsigned component", "fn pick(t: (bool, u16, i16)) -> i16 { t.2 }\npub fn main(x: bool) -> i16 { let t = (x, 7, -7); pick(t) }", "fn pick(t: (bool, u16, u16)) -> u16 { t.2 }\npub fn main(x: bool) -> u16 { let t = (x, 7, -7); pick(t) }");
+    c("return value: a let-bound array of negative unsuffixed numbers for an unsigned array type", "pub fn main(x: bool) -> [i16; 2] { let a = [-1, -2]; a }", "pub fn main(x: bool) -> [u16; 2] { let a = [-1, -2]; a }");
     c("unknown struct field access", "struct W { f: TT, g: bool }\npub fn main(x: TT) -> TT { let w = W { f: x, g: true }; w.f }", "struct W { f: TT, g: bool }\npub fn main(x: TT) -> TT { let w = W { f: x, g: true }; w.h }");
     c("unknown struct", "struct W { f: TT, g: bool }\npub fn main(x: TT) -> TT { let w = W { f: x, g: true }; w.f }", "struct W { f: TT, g: bool }\npub fn main(x: TT) -> TT { let w = X { f: x, g: true }; x }");
     c("struct pattern with an unknown field", "struct W { f: TT, g: bool }\npub fn main(x: TT) -> TT { let w = W { f: x, g: true }; let W { f, g } = w; f }", "struct W { f: TT, g: bool }\npub fn main(x: TT) -> TT { let w = W { f: x, g: true }; let W { f, h } = w; f }");
